@@ -100,3 +100,8 @@ add('C05', 'Hypothesis-generated boxes (finite / one-sided / degenerate), feasib
     'bound-constrained minimiser on convex families. Sampling.',
     'Feasibility allowance 16 ulp*(|x|+radius); ball membership to the brentq tolerance 8e-12*|x-x_k| (ratios up to 1e6); D9 (uphill trial point returned by the convergence exit) shared with C01; '
     'RuntimeError("No acceptable Cauchy point") counted as a documented non-return.')
+add('C04', 'Hypothesis-generated objectives and constraint sets (active / inactive / weakly active / redundant, linear and concave), multipliers, penalties and solver settings; KKT validity predicate recomputed from raw functions, active-set enumeration as reference, history invariants from the callback',
+    'Generated search: on every normal return the Lagrangian gradient, feasibility, multiplier sign and complementarity are recomputed from the raw objective and constraint functions with bounds '
+    'that follow from the Fischer-Burmeister termination test; strictly convex QPs with linear constraints are compared with an enumeration of all 2^m active sets; the callback history is checked for '
+    'non-negative multipliers and non-decreasing penalties; the bound-constrained front end is checked with its own multipliers, with and without PrecondStrategy and constraintStiffnessScaling. Sampling.',
+    'Non-returns (NameError) are counted, not asserted; sub-solver tolerance = 0.5*AL tolerance and reset_kappa() as all callers do; penalties fixed per compiled objective (baked into the FB residual).')
